@@ -10,6 +10,17 @@ PSEUDO = ["1", "-2", "+3", "0", "1.5", "-0.5", "1e3", "1E-2", ".5", "5.", "true"
           "2020-01-02T03:04:05Z", "2020-01-02 03:04", "2020-W01-1", "T12", "1 Jan 2020"]
 
 
+# G-key: key styles (in-domain: contain an ASCII-transliterable letter, no leading digit/underscore)
+KEYS_STYLED = ["snake_case", "camelCase", "PascalCase", "kebab-case", "with space", "dotted.name", "a1b2", "x2y",
+               "class", "def", "import", "list", "dict", "type", "id", "pk", "optional", "field", "Field", "List", "Any",
+               "datetime", "schema", "str", "int", "None", "True", "from", "lambda", "Root", "Model0", "self",
+               "naïve", "straße", "日本語a", "приветx", "Ünïcode", "a\"b", "a\\b", "a'b", "tab\tkey", "new\nline", "q?mark",
+               "UPPER", "mixedCASE_key", "a__b", "trailing_", "items", "children", "data", "ITEM-s", "x😀y",
+               "dataclass", "attr", "BaseModel", "Literal", "Optional", "Union", "Dict", "converter", "json"]
+KEYS_OUT = ["1abc", "0", "9lives", "_private", "__dunder__", "", "-", "日本", "***", " ", "fooBar", "foo_bar", "FooBar",
+            "foo-bar", "😀"]
+
+
 def rng_for(seed, *tags):
     return random.Random("|".join([str(seed), *map(str, tags)]))
 
@@ -71,11 +82,44 @@ def gen_object(rng, depth, pool, drop_p=0.2):
     return o
 
 
-def gen_samples(rng, max_samples=4, depth=3):
+def key_pool(rng, styled_p=0.0, out_p=0.0):
+    r = rng.random()
+    if r < out_p:
+        src = KEYS_OUT + KEYS_STYLED
+    elif r < out_p + styled_p:
+        src = KEYS_STYLED + WORDS
+    else:
+        src = WORDS
+    return src
+
+
+def gen_samples(rng, max_samples=4, depth=3, keys=None):
     """a non-empty list of JSON objects drawn from one key pool, so that fields merge / go optional / unionise"""
+    if keys is not None:
+        pool = rng.sample(keys, k=rng.randint(1, 6))
+        n = rng.randint(1, max_samples)
+        return [gen_object_k(rng, depth, pool, keys, drop_p=0.25) for _ in range(n)]
     pool = rng.sample(WORDS, k=rng.randint(1, 6))
     n = rng.randint(1, max_samples)
     return [gen_object(rng, depth, pool, drop_p=0.25) for _ in range(n)]
+
+
+def gen_object_k(rng, depth, pool, keys, drop_p=0.2):
+    """like gen_object but nested objects draw their keys from `keys`"""
+    o = {}
+    for k in pool:
+        if rng.random() < drop_p:
+            continue
+        r = rng.random()
+        if depth > 0 and r < 0.3:
+            sub = rng.sample(keys, k=rng.randint(1, 4))
+            o[k] = gen_object_k(rng, depth - 1, sub, keys, drop_p)
+        elif depth > 0 and r < 0.45:
+            sub = rng.sample(keys, k=rng.randint(1, 3))
+            o[k] = [gen_object_k(rng, depth - 1, sub, keys, 0.3) for _ in range(rng.randint(1, 3))]
+        else:
+            o[k] = gen_value(rng, min(depth, 1), WORDS)
+    return o
 
 
 def mutate_sample(rng, s, depth=2):
